@@ -45,6 +45,11 @@ FIXED = P20.FIXED + [
     # @shared + @exclusive per outer iteration, 12 iterations
     "kg2 args:12,4 garr:48,48,12 ob:a0:a1:i,t1,b1:1x4:1:2:- sec:0:N X0=g0[((o0*4)+i0)] S0.0=(x0+o0) "
     "sec:-:N L0=0 R1,c4{L0=(l0+s0[l1])} O1.0=(l0-x0) F{B2.0=l0}",
+    # large @shared arrays (4096 and 5000 ints): every outer iteration fills its own copy, then reads its neighbours' cells
+    # after the barrier; 16 outer iterations, so any storage shared between iterations shows with more than one thread
+    "kg3 args:16 garr:128,128 ob:a0:c8:i,t1:512x4096,625x5000:0:1:- sec:0,1:N S0.0=((o0*100)+i0) S0.511=((o0*7)-i0) "
+    "S1.0=(g0[((o0*8)+i0)]+o0) S1.624=(o0*o0) sec:-:N O1.0=((s0[m((((i0+1)*512)+511),4096)]*3)+s1[m((((i0+5)*625)+624),5000)]) "
+    "sec:-:B O1.0=((w1.0+s0[m(((i0+3)*512),4096)])-s1[m(((i0+2)*625),5000)])",
 ]
 
 
